@@ -233,6 +233,9 @@ pub fn cmd_replay(args: &[String]) -> i32 {
 const FLOODS: &[&str] = &[
     "begin 1 repeat",
     "1 begin dup dup repeat",
+    "1 2 begin over over repeat",
+    "begin depth repeat",
+    "1 2 3 begin rot over repeat",
     "begin [ 1 2 3 ] unbox repeat",
     "begin 1 2 3 3 collect unbox repeat",
     ": f 1 f ; f",
